@@ -444,6 +444,29 @@ func (e *Enc) heapGet(st *State, key string) Term {
 	if t, ok := e.heap0[key]; ok {
 		return t
 	}
+	if strings.HasPrefix(key, "lasttaf|") {
+		parts := strings.Split(key, "|")
+		srt := SInt
+		if t, err := e.p.LookupType(parts[1]); err == nil {
+			if pt, ok := t.Underlying().(*types.Pointer); ok {
+				if st, ok := pt.Elem().Underlying().(*types.Struct); ok {
+					for i := 0; i < st.NumFields(); i++ {
+						if st.Field(i).Name() == parts[2] {
+							srt = e.sortOf(st.Field(i).Type())
+						}
+					}
+				}
+			}
+		}
+		c := e.fresh("lasttaf0", srt)
+		e.heap0[key] = c
+		return c
+	}
+	if strings.HasPrefix(key, "lastta|") {
+		c := e.fresh("lastta0", SInt)
+		e.heap0[key] = c
+		return c
+	}
 	if strings.HasPrefix(key, "ent|") {
 		e.heap0[key] = False // no loop head has been reached at entry
 		return False
